@@ -397,7 +397,9 @@ def run(tier, replay=None):
     tv_ok = 0
     if replay:
         obj = json.load(open(replay))["case"]
-        if "cases" in obj:
+        if str(obj.get("leg", "")).startswith("truth"):
+            pass                                     # a replay of the truth leg (runner/truth.py) skips the main leg
+        elif "cases" in obj:
             cin = write_ndjson(os.path.join(W, "c18_replay.cases"), obj["cases"])
             replay_cases(ck, dec, binp, cin, os.path.join(W, "c18_replay.results"), "replay")
             n_cases = len(obj["cases"])
@@ -464,4 +466,6 @@ def run(tier, replay=None):
         "trusted base: TLC (+ its Java SequencesExt/FiniteSetsExt/Bitwise operators used by the transcription side; the oracle side uses its own bit arithmetic), the harness projection, serde_json",
         "a real-vs-model difference that leaves order independence intact is drift, not a violation",
     ]
+    import truth                                     # truth leg: the bus inside a committed tick and its replay (spec/TruthBus.tla)
+    truth.run_leg(ck, binp, tier, replay)
     return ck.finish()
